@@ -1,7 +1,7 @@
 """C03 -- rollback protection across update cycles sharing a datastore (TufClient.tla, MC_Rollback)."""
 import os, json
 import vlib, clientlib
-from vlib import Verdict, log, workdir
+from vlib import tlc, Verdict, log, workdir
 
 PID = "C03"
 CHAINS = ["tsRotateBack", "snRotate", "tgRotate", "tsThreshold", "tsOverlap", "tsReorder", "noChange"]
@@ -78,6 +78,15 @@ def run(tier, seed):
            "rule": "behaviours = all 2-cycle histories of MC_Rollback at V=2 per chain (thorough: + simulated 6-cycle histories at V=4 with versions up to 2^63-1); non-trivial = some cycle was served a version different from the one trusted before for that role; distinct by construction (TLC behaviours are distinct paths)",
            "trace_events": nev, "explained_by_model": st["explained"], "not_explained": st["unexplained"],
            "model_runs": mc_runs, "exhaustive": tier == "thorough"}
+    # the version rules over unbounded versions: RollbackCore.tla (the honest-document core of TufClient's phases,
+    # the same rules Lifecycle.tla's Refresh uses and the lifecycle replay binds to the code); TLC on versions
+    # 1..3, Apalache by an inductive invariant for all naturals
+    rc = tlc("RollbackCore", os.path.join(vlib.SPEC, "MC_RollbackCore.cfg"), "c03-core", workers=2, timeout=300)
+    if not rc.ok:
+        raise vlib.ToolError("RollbackCore.tla violates IndInv under TLC:\n" + (rc.violation or "")[-1500:])
+    ap = vlib.apalache_inductive("RollbackCore", "c03-core")
+    cov["rollback_core_unbounded_versions"] = {"tlc_states_versions_1_3": rc.distinct, "apalache_inductive_invariant": "IndInv (TypeOK, Behind, Serves, SeesPublished, NoRollback)",
+                                               "apalache_seconds": ap}
     return v.finish("model_checking", cov, [
         "TLC; documents abstracted to (version, signers, pins, expiry); SHA-256 collision-free; harness canonical JSON and signer",
         "F2 (trusted root not persisted) is a recorded finding: pairs of cycles separated by a stale-shipped-root start or an order-only key re-listing are reported as KNOWN-FINDING"])
